@@ -60,6 +60,17 @@ TARGETS = [
     ("pams/order_book.py", "OrderBook", "__len__"),
     ("pams/market.py", "Market", "is_running"),
     ("pams/market.py", "Market", "get_time"),
+    ("pams/market.py", "Market", "_extract_data_by_time"),
+    ("pams/market.py", "Market", "_extract_sequential_data_by_time"),
+    ("pams/market.py", "Market", "get_market_price"),
+    ("pams/market.py", "Market", "get_market_prices"),
+    ("pams/market.py", "Market", "get_mid_price"),
+    ("pams/market.py", "Market", "get_last_executed_price"),
+    ("pams/market.py", "Market", "get_fundamental_price"),
+    ("pams/market.py", "Market", "get_executed_volume"),
+    ("pams/market.py", "Market", "get_executed_total_price"),
+    ("pams/market.py", "Market", "get_n_buy_order"),
+    ("pams/market.py", "Market", "get_n_sell_order"),
     ("pams/market.py", "Market", "convert_to_tick_level_rounded_lower"),
     ("pams/market.py", "Market", "convert_to_tick_level_rounded_upper"),
     ("pams/market.py", "Market", "convert_to_tick_level"),
